@@ -311,6 +311,14 @@ func (c *converter) trackAddedIngress() {
 				}
 			}
 		}
+		if port == 0 {
+			// hosts declared only in the tls attribute are changed by this ingress as well
+			for _, tls := range ing.Spec.TLS {
+				for _, hostname := range tls.Hosts {
+					c.tracker.TrackNames(convtypes.ResourceIngress, name, ctx, hostname)
+				}
+			}
+		}
 	}
 }
 
